@@ -9,6 +9,9 @@ UNITS = [
     dict(id="calc_hash", harness="ht.c", entry="h_calc_hash", sources=S, enforce="pp_hash_table_calc_hash", replace=[], canaries=2, timeout=300,
          replay={"driver": "C15_replay.c", "mode": "hash", "args": ["p", "pointer"], "sanitize": "undefined"}),
     U("insert", "h_insert", canaries=3, functions=["p_hash_table_insert", "p_hash_table_lookup", "pp_hash_table_find_node", "p_hash_table_new"], cbmc_flags=["--unwind", "9", "--unwinding-assertions", "--object-bits", "10"]),
+    U("table_free", "h_table_free", canaries=2, functions=["p_hash_table_free"], defines_quick=["L=3"], defines_thorough=["L=4"],
+      cbmc_flags=["--unwind", "7", "--unwinding-assertions", "--object-bits", "10"],
+      bound={"quick": "a table object of 3 buckets holding at most 3 nodes in any distribution", "thorough": "3 buckets, at most 4 nodes"}),
     U("remove", "h_remove", canaries=2, functions=["p_hash_table_remove"], cbmc_flags=["--unwind", "9", "--unwinding-assertions", "--object-bits", "10"]),
 ] + [U(n, "h_keys_values", replace=[], defines=["LIST_WHICH=%d" % w, "LISTING_STUB"], functions=[f], defines_quick=["L=2"], defines_thorough=["L=4"], timeout=600, timeout_thorough=7200,
           bound={"quick": "tables with at most 2 entries spread over 3 buckets", "thorough": "at most 4 entries spread over 3 buckets (measured 4-15+ min per unit)"},
